@@ -4,7 +4,8 @@ from props import common as cm
 ID = 'C01'
 MODS = cm.MODS_CORE
 FOCUS = 'range'
-FUNCS = cm.UTILS + cm.SCANNER + cm.BUFFER + cm.PARSER + cm.TEX2TXT
+FUNCS = cm.UTILS + cm.SCANNER + cm.BUFFER + cm.PARSER + cm.TEX2TXT + \
+    cm.HANDLERS
 
 
 def SELECT(name):
